@@ -176,8 +176,10 @@ MUTANTS: List[Tuple[str, List[str], List[Tuple[str, str, str]], str]] = [
      "budget compared with > instead of >="),
     ("pm-no-dedupe", ["C18"], [(PM, "                    if action.worker_num in reloaded_workers:\n                        continue\n", "")],
      "no per-tick de-duplication of restarts"),
-    ("pm-kill-all-known", ["C18"], [(PM, "                    for worker in self.workers:\n                        if worker.pid:\n                            os.kill(worker.pid, signal.SIGINT)", "                    for worker in self.workers:\n                        if worker.pid:\n                            os.kill(worker.pid, signal.SIGINT)\n                            if restarts:\n                                os.kill(worker.pid - 1, signal.SIGINT)")],
+    ("pm-kill-all-known", ["C18"], [(PM, "                        if worker.pid and worker.is_alive():\n                            os.kill(worker.pid, signal.SIGINT)", "                        if worker.pid and worker.is_alive():\n                            os.kill(worker.pid, signal.SIGINT)\n                            if restarts:\n                                os.kill(worker.pid - 1, signal.SIGINT)")],
      "shutdown also signals a pid that is not a current worker"),
+    ("pm-revert-F16", ["C18"], [(PM, "                        if worker.pid and worker.is_alive():\n", "                        if worker.pid:\n")],
+     "reverts fix 720b973: shutdown signals workers that were found dead and reaped"),
     ("ser-no-seen-guard", ["C19"], [(SE, "    if id(exc) in SEEN_EXCEPTIONS_CACHE:\n        return None\n", "    if id(exc) in SEEN_EXCEPTIONS_CACHE and exc.__cause__ is not exc:\n        return None\n    if exc.__cause__ is exc and len(SEEN_EXCEPTIONS_CACHE) > 3:\n        return None\n")],
      "cycle guard weakened for self-caused exceptions"),
     ("ser-ensure-identity", ["C19"], [(SE, "        except Exception:\n            safe_exc_args.append(safe_repr(arg))", "        except TypeError:\n            safe_exc_args.append(safe_repr(arg))")],
@@ -292,11 +294,11 @@ def main() -> int:
         sroot = os.path.join(VERIF, "seeded")
         for d in sorted(os.listdir(sroot)):
             sd = os.path.join(sroot, d)
-            if os.path.exists(os.path.join(sd, "meta.json")) and (not a.only or a.only in d):
+            if os.path.exists(os.path.join(sd, "meta.json")) and (not a.only or any(x in d for x in a.only.split(','))):
                 jobs.append(("s", sd))
     else:
         for m in MUTANTS:
-            if not a.only or a.only in m[1] or a.only == m[0]:
+            if not a.only or any(x in m[1] or x == m[0] for x in a.only.split(',')):
                 jobs.append(("m", m))
     with ThreadPoolExecutor(a.jobs) as ex:
         results = list(ex.map(lambda j: one_mutant(j[1], a.tier) if j[0] == "m" else one_seeded(j[1], a.tier), jobs))
